@@ -79,6 +79,9 @@ class NetCheck(check.Check):
         p["cpu_and_npu_ops"] = int(st["cpu_ops"] > 0 and st["npu_ops"] > 0)
         p["several_npu_subgraphs"] = int(st["npu_ops"] > 1)
         p["aliased_outputs"] = int(st.get("aliased_outputs", 0) > 0)
+        p["partially_written_outputs"] = int(st.get("partially_written_outputs", 0) > 0)
+        p["t1_tensor_identity_attached"] = int(st.get("t1_streams", 0) > 0)
+        p["t1_tensor_identity_missing"] = int(st.get("t1_streams", 0) < st["npu_ops"])
         for ent in res["plan"].programs.values():
             if ent["prep"] is None:
                 continue
